@@ -172,6 +172,28 @@ pub fn cases(thorough: bool) -> Vec<RuleCase> {
     goals.push(Goal::Forall(1, 1, Box::new(Goal::If(vec![at(k(), "Copy")], Box::new(Goal::Atom(at(app("tuple", vec![k(), k()]), "Copy")))))));
     goals.push(Goal::Forall(1, 1, Box::new(Goal::If(vec![at(k(), "Clone")], Box::new(Goal::Atom(at(app("array", vec![k()]), "Clone")))))));
     goals.push(Goal::Forall(1, 1, Box::new(Goal::Atom(at(app("array", vec![k()]), "Copy")))));
+    // structs whose tail field is a bare type parameter declared AFTER a lifetime or const
+    // parameter (the parameter's index among all generics differs from its index among the type
+    // parameters); REF sees them as constructors over their type arguments only
+    let mut goal_texts: Vec<Option<String>> = vec![None; goals.len()];
+    let slice_a = || app("slice", vec![app0("A")]);
+    for (ref_ty, text) in [
+        (app("Tg", vec![slice_a()]), "Tg<'static, [A]>: Sized"),
+        (app("Tg", vec![app0("A")]), "Tg<'static, A>: Sized"),
+        (app("Bf", vec![slice_a()]), "Bf<3, [A]>: Sized"),
+        (app("Bf", vec![app0("u32")]), "Bf<3, u32>: Sized"),
+        (app("Mx", vec![slice_a(), app0("A")]), "Mx<'static, [A], A>: Sized"),
+        (app("Mx", vec![app0("A"), slice_a()]), "Mx<'static, A, [A]>: Sized"),
+        (app("Mx", vec![app0("A"), app0("A")]), "Mx<'static, A, A>: Sized"),
+    ] {
+        goals.push(Goal::Atom(at(ref_ty, "Sized")));
+        goal_texts.push(Some(text.to_string()));
+    }
+    let tail_rules = vec![
+        Rule { nvars: 1, head: at(app("Tg", vec![x(0)]), "Sized"), body: vec![at(x(0), "Sized")] },
+        Rule { nvars: 1, head: at(app("Bf", vec![x(0)]), "Sized"), body: vec![at(x(0), "Sized")] },
+        Rule { nvars: 2, head: at(app("Mx", vec![x(0), x(1)]), "Sized"), body: vec![at(x(0), "Sized")] },
+    ];
     let mut out = vec![];
     for f in &field_opts {
         for (ename, etext, erules) in &explicit {
@@ -179,11 +201,14 @@ pub fn cases(thorough: bool) -> Vec<RuleCase> {
             let program = format!(
                 "#[lang(sized)] trait Sized {{}} #[lang(copy)] trait Copy {{}} #[lang(clone)] trait Clone {{}} \
                  #[lang(tuple_trait)] trait Tuple {{}} #[lang(fn_ptr_trait)] trait FnPtr {{}} #[object_safe] trait Foo {{}} \
-                 struct A {{}} struct S<T> {{ {} }} enum E<T> {{ V(T), W }} {}",
+                 struct A {{}} struct S<T> {{ {} }} enum E<T> {{ V(T), W }} \
+                 struct Tg<'a, T> {{ tag: &'a u32, tail: T }} struct Bf<const N, T> {{ head: [u32; N], tail: T }} \
+                 struct Mx<'a, U, T> {{ tag: &'a T, tail: U }} {}",
                 fields, etext
             );
             let mut rules = builtin_rules(f);
             rules.extend(erules.iter().cloned());
+            rules.extend(tail_rules.iter().cloned());
             out.push(RuleCase {
                 family: "builtin",
                 class: format!("builtin/{}", ename),
@@ -192,7 +217,7 @@ pub fn cases(thorough: bool) -> Vec<RuleCase> {
                 coinductive: vec![],
                 ctors: vec![("A".into(), 0), ("S".into(), 1)],
                 goals: goals.clone(),
-                goal_texts: vec![],
+                goal_texts: goal_texts.clone(),
                 history: 0,
             });
         }
@@ -214,7 +239,7 @@ pub fn run_c08(rep: &Report) -> i32 {
         cases_n,
         tr,
         nt,
-        "every program from 8 field lists for struct S<T> (none, sized, parameter, slice last, slice first, str, tuple with unsized tail) x 6 explicit-impl sets, with the lang-item traits declared, x closed goals `ty: Sized|Copy|Clone|Tuple|FnPtr` for EVERY type of a universe of depth <= 2 plus depth-3 wrappers (ADTs, enum, tuples of arity 0-3, arrays, slices, str, references, raw pointers, fn pointers, scalars, never, dyn Trait) plus forall/if goals, both solvers; non-trivial = goals REF decides",
+        "every program from 8 field lists for struct S<T> (none, sized, parameter, slice last, slice first, str, tuple with unsized tail) x 6 explicit-impl sets, with the lang-item traits declared and three structs whose tail field is a type parameter declared after a lifetime or const parameter, x closed goals `ty: Sized|Copy|Clone|Tuple|FnPtr` for EVERY type of a universe of depth <= 2 plus depth-3 wrappers (ADTs, enum, tuples of arity 0-3, arrays, slices, str, references, raw pointers, fn pointers, scalars, never, dyn Trait) plus forall/if goals, both solvers; non-trivial = goals REF decides",
         true,
         &["REF rules are transcribed from the property statement and Rust's rules (harness/src/props/c08.rs: builtin_rules), combined with the explicit impls as Horn clauses, least fixed point"],
     )
